@@ -365,6 +365,11 @@ def shrink(propmod, plan, target_cls, worker, max_runs=400):
         return any(v.cls == target_cls for v in propmod.check(p, res))
 
     cur = plan.copy()
+    if getattr(propmod, 'NO_CYCLE_SHRINK', False):
+        # the plan has a structure (identical rounds) that cycle removal would break: the module shrinks its own template
+        if hasattr(propmod, 'shrink_args'):
+            cur = propmod.shrink_args(cur, fails)
+        return cur, runs[0]
     # ddmin over cycles
     n = 2
     while len(cur.cycles) >= 2 and runs[0] < max_runs:
